@@ -451,12 +451,11 @@ Section Elem.
   (* the function the deciding model uses (resolve_model) is tied to the faithful recursion `resolve`:
      it answers Ok r iff the code returns r, OutOfFuel iff the code never returns, and nothing else *)
   Theorem resolve_model_unfixed t f :
-    c15_fixed_variant = false ->
-    (forall r, resolve_model leaf tm t f = Ok r <-> resolve leaf tm (fuel_of tm) t f = Ok r) /\
-    (resolve_model leaf tm t f = OutOfFuel <-> forall fuel, resolve leaf tm fuel t f = OutOfFuel) /\
-    (forall k, resolve_model leaf tm t f <> Fault k).
+    (forall r, resolve_model_v false leaf tm t f = Ok r <-> resolve leaf tm (fuel_of tm) t f = Ok r) /\
+    (resolve_model_v false leaf tm t f = OutOfFuel <-> forall fuel, resolve leaf tm fuel t f = OutOfFuel) /\
+    (forall k, resolve_model_v false leaf tm t f <> Fault k).
   Proof.
-    intros Hv. unfold resolve_model. rewrite Hv.
+    unfold resolve_model_v.
     destruct (detect leaf tm (fuel_of tm) [] t f) as [r'| |] eqn:E.
     - pose proof (detect_done _ _ _ _ _ E) as Hd. repeat split.
       + intros H. rewrite Hd. exact H.
@@ -473,8 +472,13 @@ Section Elem.
   Qed.
 
   Theorem resolve_model_fixed t f :
-    c15_fixed_variant = true -> resolve_model leaf tm t f = resolve_fx leaf tm (fuel_of tm) [] t f.
-  Proof. intros Hv. unfold resolve_model. rewrite Hv. reflexivity. Qed.
+    resolve_model_v true leaf tm t f = resolve_fx leaf tm (fuel_of tm) [] t f.
+  Proof. reflexivity. Qed.
+
+  (* the deployed model is the repaired variant *)
+  Theorem resolve_model_deployed t f :
+    resolve_model leaf tm t f = resolve_fx leaf tm (fuel_of tm) [] t f.
+  Proof. reflexivity. Qed.
 
   (* ---------- stratified alias declarations never diverge ---------- *)
   Lemma union_names_multi l : union_names (TMulti l) = flat_map union_names l.
